@@ -50,6 +50,10 @@ OutInfo(d) ==
                   [] t = "Feature" -> (IF Has(d, "geometry") THEN OutInfo(Get(d, "geometry")) ELSE <<"?">>)
                   [] OTHER -> <<"?">>,
     foreign |-> Foreign(d)]
+\* Members(): the foreign members of the (top-level) object as one JSON object, or absent when there are none
+ExpMembers(d) == IF Foreign(d) = <<>> THEN None ELSE Obj(Foreign(d))
+\* IsPoint(): z is the third ordinate of a Point (0 when it has none)
+ExpZ(d) == LET c == Get(d, "coordinates") IN IF Len(Items(c)) >= 3 THEN Items(c)[3] ELSE Num(0)
 \* known keys appear once each in the output
 KnownOnce(d) == \A k \in KnownKeys : Cardinality({i \in 1..Len(Members(d)) : Members(d)[i][1] = k}) <= 1
 =============================================================================
